@@ -126,8 +126,9 @@ PLANS = {
     # ("dense", ...): EVERY history of add_link calls (none merged) over 2 nodes / 3 links, all lookups read after every call
     "C08": dict(quick=[("cache", "small", 3, 3), ("dense", "dense", 5, 3)],
                 thorough=[("cache", "small", 3, 3), ("cache", "tiny", 4, 3), ("path", "tiny", 2, 4), ("dense", "dense", 5, 3)]),
-    "C09": dict(quick=[("path", "small", 1, 4), ("cache", "small", 2, 3), ("path", "tiny", 2, 2)],
-                thorough=[("path", "small", 1, 6), ("path", "small", 2, 3), ("cache", "tiny", 4, 3)]),
+    # ("pathread", ...): well-formed paths of up to 5 objects that may revisit edges and links, with reads in between
+    "C09": dict(quick=[("path", "small", 1, 4), ("cache", "small", 2, 3), ("path", "tiny", 2, 2), ("pathread", "tiny", 3, 5)],
+                thorough=[("path", "small", 1, 6), ("path", "small", 2, 3), ("cache", "tiny", 4, 3), ("pathread", "dense", 3, 5), ("pathread", "tiny", 2, 7)]),
     # ("near", universe, extra calls, shape bound): every valid shape <= (3,3)/(4,4)/(4,5) + every single further call
     "C06": dict(quick=[("valid", "small", 3, 3), ("near", "near4", 1, 4)],
                 thorough=[("valid", "small", 3, 3), ("valid", "valid4", 3, 3), ("near", "near4", 1, 5), ("near", "near4", 2, 3)]),
